@@ -290,6 +290,18 @@ Definition sym_samples (tc : list sterm * Zi) (fr : freqs) (qmap : list nat) : o
 Definition odd_targets (t : sterm) : list nat :=
   filter (fun q => Nat.odd (length (facs_on q t))) (t_targets t).
 
+(* proposed repair of SymbolicHamiltonian.expectation_from_samples: count the factors, not the set *)
+Definition sym_samples_fixed (tc : list sterm * Zi) (fr : freqs) (qmap : list nat) : option (Z * Z) :=
+  if negb (forallb (fun t => forallb (fun f => pauli_eqb (fst f) PZ) (t_factors t)) (fst tc)) then None
+  else
+    let per_term t :=
+      option_map (fold_right Z.add 0%Z)
+        (opt_all (map (fun kc : list bool * Z =>
+             option_map (fun bits => (fst (t_coef t) * sgn (Nat.odd (count_true bits)) * snd kc)%Z)
+                        (opt_all (map (key_bit (fst kc) qmap) (map snd (t_factors t))))) fr)) in
+    option_map (fun l => ((fold_right Z.add 0%Z l + fst (snd tc) * ftotal fr)%Z, ftotal fr))
+               (opt_all (map per_term (fst tc))).
+
 Definition is_diag (M : mat Zi) : bool :=
   forallb (fun i => forallb (fun j => (i =? j) || zi_is0 (mget ZK M i j)) (seq 0 (length M)))
           (seq 0 (length M)).
@@ -307,6 +319,21 @@ Definition dense_samples (M : mat Zi) (fr : freqs) (qmap : list nat) : option (Z
   else option_map (fun l => (fold_right Z.add 0%Z l, ftotal fr))
     (opt_all (map (fun kc : list bool * Z =>
         match dense_sample_index (fst kc) qmap with
+        | Some ix => if ix <? length M then Some (fst (mget ZK M ix ix) * snd kc)%Z else None
+        | None => None
+        end) fr)).
+
+(* proposed repair of Hamiltonian.expectation_from_samples: weights 2 ** (nqubits - 1 - i) *)
+Definition dense_sample_index_fixed (n : nat) (key : list bool) (qmap : list nat) : option nat :=
+  option_map (fold_right Nat.add 0)
+    (opt_all (map (fun i => if n <=? i then None
+                            else option_map (fun b : bool => if b then 2 ^ (n - 1 - i) else 0)
+                                            (key_bit key qmap i)) qmap)).
+Definition dense_samples_fixed (n : nat) (M : mat Zi) (fr : freqs) (qmap : list nat) : option (Z * Z) :=
+  if negb (is_diag M) then None
+  else option_map (fun l => (fold_right Z.add 0%Z l, ftotal fr))
+    (opt_all (map (fun kc : list bool * Z =>
+        match dense_sample_index_fixed n (fst kc) qmap with
         | Some ix => if ix <? length M then Some (fst (mget ZK M ix ix) * snd kc)%Z else None
         | None => None
         end) fr)).
